@@ -87,6 +87,7 @@ class Workspace:
         self.trees = []      # trees[k] = tree after k patches (stops at the first failing patch)
         self.fail_at = None  # index of the first failing patch or None
         self.seed = None
+        self.extra_dirs = [] # directories that exist, empty, in the starting tree (and are expected to stay)
 
     def describe(self):
         return {"seed": self.seed, "files": sorted(self.t0), "fail_at": self.fail_at,
@@ -154,8 +155,11 @@ PREFIX_STYLE = ["plain"]   # set by render_patch for the patch being rendered
 
 def _prefix(strip, side):
     if strip == 0:
-        return ""
+        return "./" if PREFIX_STYLE[0] == "dot-slash" else ""
     comps = ["x%d" % i for i in range(strip - 1)] + [side]
+    if PREFIX_STYLE[0] == "dot-slash":
+        # './' is one of the N components that -pN removes (what 'diff -ur ./old ./new' writes)
+        comps = ["."] + comps[1:]
     if PREFIX_STYLE[0] == "double-slash":
         # a run of slashes is one separator: -pN still removes exactly N components
         return "//".join(comps) + "//"
@@ -268,7 +272,7 @@ def render_patch(p, rnd):
     if rnd.random() < 0.3:
         parts.append(b"From: someone\nSubject: %s\n\nSome description.\n---\n file | 2 +-\n\n" % p.name.encode())
     if getattr(p, "prefix_style", None) is None:
-        p.prefix_style = "double-slash" if (p.strip >= 1 and rnd.random() < 0.07) else "plain"
+        p.prefix_style = "double-slash" if (p.strip >= 1 and rnd.random() < 0.07) else ("dot-slash" if ((p.strip == 0 or not p.git) and rnd.random() < 0.15) else "plain")
     PREFIX_STYLE[0] = p.prefix_style
     try:
         for i, op in enumerate(p.ops):
@@ -479,6 +483,11 @@ def _gen_op(r, work, cfg, git, reverse, touched):
         work[p] = (post, newmode)
     elif kind == "create":
         p = _pick_new_path(r, work, cfg, touched)
+        t0 = getattr(cfg, "_t0", None) or {}
+        gone = [q for q in sorted(t0) if q not in work and q not in touched and not _clashes(q, work)]
+        if gone and r.random() < 0.35:
+            # a name that was there when the series started and was removed since: the new file is a new file (own mode)
+            p = r.choice(gone)
         post = gen_content(r, 12) or b"new file\n"
         mode = DEFAULT_MODE
         if git and r.random() < 0.5:
@@ -685,6 +694,8 @@ def materialize(ws, root, applied=0, patches_dir="patches"):
         with open(fp, "wb") as f:
             f.write(data)
         os.chmod(fp, mode)
+    for d in getattr(ws, "extra_dirs", ()):
+        os.makedirs(os.path.join(root, d), exist_ok=True)
     pd = os.path.join(root, patches_dir)
     os.makedirs(pd, exist_ok=True)
     for p in ws.patches:
@@ -722,6 +733,56 @@ def nest_patch_names(ws, r, patches_dir="patches"):
         new = patches_dir + "/" + base
         if all(q.name != new for q in ws.patches):
             rename(ws.patches[j], new)
+
+
+def add_note_patch(ws, r):
+    """Insert a patch file without any file patch (empty, or only a description) - also as the last patch of the series
+    and right in front of the failing one.  It applies trivially: it is recorded, and nothing changes."""
+    n = len(ws.patches)
+    limit = n if ws.fail_at is None else ws.fail_at
+    where = r.choice(["last", "before-fail", "any"])
+    if where == "last" and ws.fail_at is None:
+        pos = n
+    elif where == "before-fail" and ws.fail_at is not None:
+        pos = ws.fail_at
+    else:
+        pos = r.randint(0, limit)
+    p = PatchSpec("p%02dn-note.patch" % pos, [], 1, False, False)
+    p.text = r.choice([b"", b"Only a description, no diff in here.\n", b"From: someone\nSubject: placeholder\n\n---\n nothing | 0\n\n"])
+    p.series_line = p.name
+    p.prefix_style = "plain"
+    ws.patches.insert(pos, p)
+    ws.trees.insert(pos + 1, dict(ws.trees[pos]))
+    if ws.fail_at is not None:
+        ws.fail_at += 1
+    return True
+
+
+def add_empty_dirs(ws, r):
+    """Directories that are empty in the starting tree (and stay so); sometimes the failing patch is given a file patch for
+    a file that does not exist in one of them (its reject belongs there, and nothing may remove the directory)."""
+    dirs = []
+    for d in r.sample(["spool", "var/cache", "empty.d", "deep/er/est"], r.randint(1, 2)):
+        top = d.split("/")[0]
+        if any(q == top or q.startswith(top + "/") for t in ws.trees for q in t):
+            continue
+        if any(q == top or q.startswith(top + "/") for p in ws.patches for o in p.ops for q in (o.path, o.new_path)):
+            continue
+        dirs.append(d)
+    if not dirs:
+        return False
+    ws.extra_dirs = sorted(set(getattr(ws, "extra_dirs", [])) | set(dirs))
+    if ws.fail_at is not None and r.random() < 0.7:
+        fp = ws.patches[ws.fail_at]
+        d = r.choice(dirs)
+        data = b"line 1\nline 2\nline 3\n"
+        o = Op("modify", d + "/nofile%d.c" % r.randint(0, 99), pre=data, post=b"line 1\nline two\nline 3\n", pre_mode=DEFAULT_MODE, post_mode=DEFAULT_MODE)
+        o.style = "git" if fp.git else "plain"
+        o.ctx = 3
+        o.poison = "missing"
+        fp.ops.insert(r.randint(0, len(fp.ops)), o)
+        render_patch(fp, r)
+    return True
 
 
 def add_nested_emptying(ws, r):
